@@ -107,7 +107,8 @@ def setup(e, cfg, name="D"):
     dtype = torch.float64
     from inferno.core.infrastructure import Module, RecordTensor
     m = Module()
-    RecordTensor.create(m, "rec", dt, dt * (N - 1), torch.zeros(shape, dtype=dtype), inclusive=True)
+    # (a duration a quarter step short of dt * (N - 1): ceil() lands on N - 1 whatever the float rounding of dt * (N - 1) / dt)
+    RecordTensor.create(m, "rec", dt, max(0.0, dt * (N - 1) - 0.25 * dt), torch.zeros(shape, dtype=dtype), inclusive=True)
     rec = m.rec
     if rec.recordsz != N:
         raise AssertionError((rec.recordsz, N, dt))
